@@ -190,6 +190,10 @@ pub fn worker_main(world: &World, args: WorkerArgs) -> i32 {
                 if *seen == 1 && found.len() <= 6 {
                     // minimise in-process: same property + kind must persist
                     let original = src.used.clone();
+                    // announce the unminimised record first: a candidate tape may kill this process
+                    if let Some(rec) = violation_record(world, &ctx, args.seed, index, &original, &original, 0) {
+                        raw_write(format!("u {}\n", rec).as_bytes());
+                    }
                     let mut last_progress = 0u64;
                     let (min_tape, spent) = minimise(&original, args.min_budget, |cand| {
                         last_progress += 1;
